@@ -153,6 +153,36 @@ func UseRebind(a, b int) int {
 	return vrt.V(%[10]d, sum)
 }
 
+type lnode struct {
+	val  int
+	next *lnode
+}
+
+// '=' form with loop variables that are not identifiers: the operand is evaluated anew
+// for every element
+func UseAssignTargets(a, b int) int {
+	xs := make([]int, 4)
+	i := 0
+	for xs[i] = range «RANGE((Rcv{10}).Gen(3))» {
+		i++
+	}
+	n3 := &lnode{}
+	n2 := &lnode{next: n3}
+	n1 := &lnode{next: n2}
+	p := n1
+	for p.val = range «RANGE((Rcv{a}).Gen(3))» {
+		p = p.next
+	}
+	var box struct{ last int }
+	for box.last = range «RANGE((Rcv{b}).Gen(2))» {
+	}
+	q := &xs[3]
+	for *q = range «RANGE((Rcv{b + 1}).Gen(2))» {
+		q = &xs[0]
+	}
+	return vrt.V(%[11]d, xs[0]*1000+xs[1]*100+xs[2]*10+xs[3]+n1.val*7+n2.val*11+n3.val*13+box.last)
+}
+
 func UseNested(a, b int) int {
 	total := 0
 	for v := range «RANGE((Rcv{a}).Gen(3))» {
@@ -170,7 +200,7 @@ func UseNested(a, b int) int {
 	}
 	return vrt.V(%[9]d, total)
 }
-`, k1, k3, k2-1, tag(), brk, tag(), tag(), k1-1, tag(), tag())
+`, k1, k3, k2-1, tag(), brk, tag(), tag(), k1-1, tag(), tag(), tag())
 	src = []string{common, genSrc, users}
 	ref = []string{common, genRef, users}
 	small := []int{-1, 0, 1, 2, 3, 5}
@@ -178,6 +208,7 @@ func UseNested(a, b int) int {
 		{Name: "UseTypes", Params: []string{"a", "b"}, Args: [][]int{small, small}, Feat: []string{"iterator_in_struct_map_slice_closure_typearg", "generic_generator", "method_generator", "mixed_pull_and_range_on_one_iterator"}},
 		{Name: "UseRebind", Params: []string{"a", "b"}, Args: [][]int{small, small}, Feat: []string{"pull_helper_closures_over_rebound_iterator_variable"}},
 		{Name: "UseNested", Params: []string{"a", "b"}, Args: [][]int{small, small}, Feat: []string{"nested_consumer_ranges"}},
+		{Name: "UseAssignTargets", Params: []string{"a", "b"}, Args: [][]int{small, small}, Feat: []string{"consumer_range_assign_form_onto_index_field_and_pointer_operands"}},
 	}
 	// a plain file of the package (it does not mention the API): the writes to pkgSrc live here
 	plain = []string{fmt.Sprintf(`func UseRotate(a, b int) int {
